@@ -40,6 +40,13 @@ CLAIMED["C03"] = {
     "technique": "Coq proof over source-generated model + reflexivity tie + metamorphic differential runs",
 }
 
+CLAIMED["C16"] = {
+    "text": "Coq/Flocq theorems over the quantizer generated from the source on every run: for float32/float16/bfloat16 and qint8, EVERY finite element with EVERY finite non-negative scale whose grid is representable dequantizes to a finite value — including a zero scale (all-zero row, absmax/qmax underflow), where the float quotient is NaN or infinite and the proof goes through nan_to_num, round, clamp and the exact int8 cast; a zero scale dequantizes to exactly zero. The implementation is audited on tensors assembled from degenerate row/group classes in every mixture (all 5 qtypes), on calibration over zero/constant/tiny/huge batches and on zero-weight layers, with C01/C02's bounds re-checked.",
+    "note": "Trusted: Coq kernel + vm_compute, Flocq as IEEE semantics, Reals axioms, translators, vocabulary tied by correspondence. PARTIAL: float8 and int2/int4 finiteness, calibration and the zero-layer equality are decided by the audit and the bit-exact correspondence with the generated code, not by a theorem.",
+    "design": "6/C16",
+    "technique": "Coq/Flocq proof over source-generated model + reflexivity tie + degenerate-class audit",
+}
+
 NOT_YET = {}
 
 
